@@ -12,14 +12,35 @@ import (
 
 func runMachine(t *testing.T, prop, rule string, stepsQuick, stepsThorough int, after func(m *machine, txn *transaction.Transaction, o sim.Outcome, before *snapshot) error,
 	finish func(m *machine) (nontrivial bool, fp string)) {
+	runMachineOps(t, prop, nil, rule, stepsQuick, stepsThorough, after, finish)
+}
+
+// caseReset holds, per property, a function that clears the oracle's per-case state.
+var caseReset = map[string]func(){}
+
+// runMachineOps is runMachine with the property's own operation mix.
+func runMachineOps(t *testing.T, prop string, ops []string, rule string, stepsQuick, stepsThorough int, after func(m *machine, txn *transaction.Transaction, o sim.Outcome, before *snapshot) error,
+	finish func(m *machine) (nontrivial bool, fp string)) {
 	base(t)
 	st := vkit.For(prop).SetRule(rule)
 	rapid.Check(t, func(t *rapid.T) {
+		if reset := caseReset[prop]; reset != nil {
+			reset() // per-case oracle state must not survive a failing case (rapid re-runs the property while shrinking)
+		}
 		m := newMachine(t, prop)
 		m.after = after
+		m.opsList = ops
 		n := rapid.IntRange(10, vkit.Scale(stepsQuick, stepsThorough)).Draw(t, "steps")
-		for i := 0; i < n; i++ {
-			m.step()
+		if ops == nil {
+			for i := 0; i < n; i++ {
+				m.step()
+			}
+		} else {
+			// the newer checks count executed transactions, not drawn operations (many operations are no-ops while
+			// there is no allocation yet)
+			for i := 0; i < 3*n && m.ops < n; i++ {
+				m.step()
+			}
 		}
 		nt, fp := finish(m)
 		st.Case()
